@@ -5,6 +5,7 @@ package harness
 
 import (
 	"encoding/json"
+	"fmt"
 	"strings"
 	"testing"
 
@@ -99,6 +100,32 @@ func genValidIetfPatch(t *rapid.T, cur map[string]interface{}, st *propStats) (m
 			ops = append(ops, op)
 			work = next
 			flags["ietf-number-test"] = true
+		}
+	}
+	if rapid.IntRange(0, 7).Draw(t, "shiftingMove") == 0 {
+		// a move out of an array into a location behind it in the same array: the location is meant in the array as it is
+		// after the removal (an element that was an array may have become an object and the other way round)
+		name := rapid.SampledFrom([]string{"sh", "name", "o"}).Draw(t, "shiftName")
+		elems := []interface{}{"x", []interface{}{"a"}, map[string]interface{}{"k": "v"}, []interface{}{}, "y"}
+		perm := rapid.Permutation(elems).Draw(t, "shiftElems")
+		setup := map[string]interface{}{"op": "add", "path": "/" + name, "value": append([]interface{}{"first"}, perm...)}
+		var target string
+		switch idx := rapid.IntRange(1, len(perm)-1).Draw(t, "shiftTo"); perm[idx].(type) {
+		case []interface{}:
+			target = fmt.Sprintf("/%s/%d/0", name, idx) // perm[idx] sits at idx once "first" is gone
+		case map[string]interface{}:
+			target = fmt.Sprintf("/%s/%d/moved", name, idx)
+		default:
+			target = fmt.Sprintf("/%s/%d", name, idx)
+		}
+		for _, op := range []map[string]interface{}{setup, {"op": "move", "from": "/" + name + "/0", "path": target}} {
+			next, err := refPatch6902(work, op)
+			if err != nil {
+				break
+			}
+			ops = append(ops, op)
+			work = next
+			flags["ietf-shifting-move"] = true
 		}
 	}
 	for i := 0; i < n; i++ {
